@@ -190,14 +190,27 @@ def check_convert(case):
                                behaviour=what + ":wrong-value")
         return None
 
-    # out-of-place
-    o = outcome(lambda: Quantity(_scalar_or_array(x), u["text"]).value(v["text"]))
+    # out-of-place: asked twice of the same object (the answer must not depend on an earlier query) and the
+    # source must report its own value and units unchanged afterwards
+    def _twice():
+        q0 = Quantity(_scalar_or_array(x), u["text"])
+        units0 = q0.units()
+        a = q0.value(v["text"])
+        a = a.copy() if isinstance(a, np.ndarray) else a
+        b = q0.value(v["text"])
+        return a, b, q0.value(), q0.units() == units0
+    o = outcome(_twice)
     if o[0] == "err":
         return failure(case["sub"], case, [e[0] for e in exp], dict(error=o[1], message=o[2]), tags=tags,
                        behaviour="value:raises:" + o[1])
-    f = cmp(o[1], "value")
+    f = cmp(o[1][0], "value") or cmp(o[1][1], "value-second-query")
     if f:
         return f
+    src = o[1][2]
+    src = [float(s_) for s_ in src] if isinstance(src, np.ndarray) and src.shape else [float(src)]
+    if src != [float(xi) for xi in xs] or not o[1][3]:
+        return failure(case["sub"], case, x, dict(value=src, units_unchanged=o[1][3]), tags=tags,
+                       behaviour="value:source-changed-by-query")
     # in place
     oq = outcome(lambda: Quantity(_scalar_or_array(x), u["text"]))
     if oq[0] == "err":
